@@ -24,7 +24,8 @@ Record step_obs := {
   t_valid : bool;      (* the real admission plugin accepted the object *)
   t_delivered : bool;  (* the object was stored / removed and an event reached the controller *)
   t_res : Z;           (* 0 none, 1 ok, 2 requeue, 3 error *)
-  t_hosts : list host_obs
+  t_hosts : list host_obs;
+  t_x : list (string * Z)   (* per cross probe (Host, SNI of the connection): serving cluster ("" = none), status *)
 }.
 
 (* --- what the property says about one host, given the objects currently in the API *)
@@ -93,6 +94,10 @@ Definition norm_ok (hosts : list (string * string)) (obs : list host_obs) : bool
      else true) (combine hosts obs)) (combine hosts obs).
 (* clause 7: never served by a ClusterInfo that was already stopped *)
 Definition alive_ok (b : host_obs) : bool := negb (h_stopped b).
+(* clause 8: a REQUEST is served by the owner of its Host header, whatever server name the TLS connection
+   it arrived on was opened with (the handshake uses the SNI for the certificates only) *)
+Definition request_ok (api : list obj) (hs : string * string) (x : string * Z) : bool :=
+  (String.eqb (fst x) (owner_name api (req_key (fst hs))) && (snd x =? code_of api (req_key (fst hs))))%bool.
 
 (* one delivered event: the name it carries, its result, and the op that first delivered this very object *)
 Record ev := { ev_name : string; ev_res : Z; ev_src : nat }.
@@ -171,8 +176,8 @@ Definition snext (s : sstate) (p : op) (b : step_obs) : sstate :=
   {| sp_api := api; sp_clean := (sp_clean s && ok)%bool; sp_prev := t_hosts b;
      sp_log := (sp_log s ++ [e])%list; sp_latest := latest |}.
 
-(* the seven clauses for one step *)
-Definition step_ok (hosts : list (string * string)) (s : sstate) (p : op) (b : step_obs) : list bool :=
+(* the eight clauses for one step *)
+Definition step_ok (hosts xps : list (string * string)) (s : sstate) (p : op) (b : step_obs) : list bool :=
   let s' := snext s p b in
   let clean := sp_clean s' in
   let a := event_cluster s p b in
@@ -184,12 +189,13 @@ Definition step_ok (hosts : list (string * string)) (s : sstate) (p : op) (b : s
     then forallb (deleted_ok a) (t_hosts b) else true;
     if clean then forallb (fun x => tls_ok (sp_api s') (fst x) (snd x)) hb else true;
     norm_ok hosts (t_hosts b);
-    if clean then forallb alive_ok (t_hosts b) else true ].
+    if clean then forallb alive_ok (t_hosts b) else true;
+    if clean then forall2b (request_ok (sp_api s')) xps (t_x b) else true ].
 
 Definition and_lists (a b : list bool) : list bool := map (fun p => (fst p && snd p)%bool) (combine a b).
 
-Fixpoint hist_ok (hosts : list (string * string)) (s : sstate) (l : list (op * step_obs)) : list bool :=
+Fixpoint hist_ok (hosts xps : list (string * string)) (s : sstate) (l : list (op * step_obs)) : list bool :=
   match l with
-  | [] => [true; true; true; true; true; true; true]
-  | (p, b) :: r => and_lists (step_ok hosts s p b) (hist_ok hosts (snext s p b) r)
+  | [] => [true; true; true; true; true; true; true; true]
+  | (p, b) :: r => and_lists (step_ok hosts xps s p b) (hist_ok hosts xps (snext s p b) r)
   end.
